@@ -866,7 +866,9 @@ def check_C18(ctx):
     # edit scripts: the base ontology against every ontology reachable by <= 2 (3) single edits of every kind (MC_CompareEdits)
     eo = tlc(ctx, cfgfile(ctx, "MC_CompareEdits", "mc/MC_CompareEdits.tla", open(os.path.join(SPEC, "mc", "MC_CompareEdits.cfg")).read().replace("MaxEdits = 2", "MaxEdits = %d" % (2 if ctx.quick else 3))),
              "mc/MC_CompareEdits.tla", workers=14, timeout=3000)["out"]
-    co = concat(ctx, [co, eo], "c18-lines.txt")
+    # the same machine with 301-byte names that differ in their last byte only (term edits; realised through hp.obo)
+    lo = tlc(ctx, "mc/MC_CompareEditsLong.cfg", "mc/MC_CompareEdits.tla", workers=8, timeout=3000)["out"]
+    co = concat(ctx, [co, eo, lo], "c18-lines.txt")
     s = hv(ctx, "replay-compare", prop="C18", **{"in": co})
     ctx.traces += s.get("cases", 0)
     return finish(ctx)
